@@ -132,6 +132,89 @@ def decay_run(N):
     return run
 
 
+def chain_run(N):
+    """The real Taus.__call__ with the REAL tau_energy (sampler on a symbolic 2x2 table cell, as in C04) and the real
+    exit-probability lookup stubbed: every SAMPLED tau -- every event whose emergence angle is not above the
+    tabulated maximum, including angles below the table and angles exactly on a table edge -- has an energy of at
+    least the smallest tabulated fraction of the neutrino energy, hence (with the data obligation E_min > m_tau)
+    a Lorentz factor E/m >= 1 and a speed in (0,1)."""
+
+    def run(C):
+        from props import c04 as P4
+
+        _ins, cns, tns = P4._load()
+        M = 2
+        g, E, B, F = P4.mk_cell(C, M, exact_last=True)
+        T = object.__new__(tns["Taus"])
+        T.tau_cdf_grid = g
+        f = z3.Real("etau_frac")
+        C.assume(f > 0, f <= 1)
+        T.config = type("Cfg", (), {"simulation": type("S", (), {"tau_shower": type("TS", (), {"etau_frac": SV(t=f)})()})()})()
+        px = symarr([f"pexit{i}" for i in range(N)])
+        T.tau_exit_prob = lambda betas, log_e_nu: px
+        mt = SV.of(tns["massTau"])
+        betas = symarr([f"beta{i}" for i in range(N)])
+        les = symarr([f"logE{i}" for i in range(N)])
+        pat = ""
+        for i in range(N):
+            b = z3.Real(f"beta{i}")
+            C.assume(z3.Real(f"logE{i}") >= E[0], z3.Real(f"logE{i}") <= E[1], b >= 0)
+            # regimes (forks): below the table / ON the first tabulated angle / inside / ON the last / above
+            if C.decide(b < B[0]):
+                pat += "L"
+            elif C.decide(b == B[0]):
+                pat += "a"
+            elif C.decide(b < B[1]):
+                pat += "V"
+            elif C.decide(b == B[1]):
+                pat += "b"
+            else:
+                pat += "H"
+        # the smallest tabulated energy fraction times the neutrino energy exceeds the tau mass (data obligation of this check)
+        p10 = [core.exp10(les[i]) for i in range(N)]
+        for i in range(N):
+            C.assume(F[0] * p10[i].term() > mt.term())
+        us = [SV(t=z3.Real(f"u{i}")) for i in range(N)]
+        for i in range(N):
+            be = B[0] if pat[i] == "L" else z3.Real(f"beta{i}")
+            if pat[i] != "H":
+                row = P4._row_at(E, B, z3.Real(f"logE{i}"), be, M)
+                C.assume(us[i].term() > row[0], us[i].term() < row[M - 1])
+            else:
+                C.assume(us[i].term() > 0, us[i].term() < 1)
+        order = [i for i in range(N) if pat[i] in "aVb"] + [i for i in range(N) if pat[i] == "L"]  # draw order of the implementation is not assumed:
+        claims = {}
+        tag = f"(pattern {pat})"
+        with P4.fixed_draws([us[i] for i in order] * 4 + us * 4):
+            try:
+                tauBeta, tauLorentz, tauEnergy, showerEnergy, _px = T(betas, les)
+                err = None
+            except Exception as e:  # noqa
+                err = e
+        claims[f"Taus.__call__ accepts the batch {tag}"] = z3.BoolVal(err is None)
+        if err is None:
+            for i in range(N):
+                if pat[i] == "H":
+                    continue
+                e_, g_, b_ = tauEnergy[i].term(), tauLorentz[i].term(), tauBeta[i].term()
+                claims[f"[{i}] sampled tau: energy >= smallest tabulated fraction x neutrino energy {tag}"] = e_ >= F[0] * p10[i].term()
+                claims[f"[{i}] sampled tau: Lorentz factor == E/m and >= 1 {tag}"] = z3.And(g_ * mt.term() == e_, g_ >= 1)
+                claims[f"[{i}] sampled tau: 0 < speed < 1 {tag}"] = z3.And(b_ > 0, b_ < 1)
+        inputs = {"E0": E[0], "E1": E[1], "B0": B[0], "B1": B[1], "etau_frac": f}
+        for i in range(N):
+            for n in ("beta", "logE", "u"):
+                inputs[f"{n}{i}"] = z3.Real(f"{n}{i}")
+        return harness.Out(claims=claims, inputs=inputs, info={"pattern": pat}, skip_defd=lambda t, w: ("definedness of the sampler is C04's obligation" if "taus.py" not in w else
+                                                   ("the batch contains an event above the tabulated maximum angle: it receives a negligible placeholder energy (eps32 x E_nu), is not a sampled tau, "
+                                                    "and its kinematics are outside the property" if "H" in pat else None)))
+
+    return run
+
+
+def job_chain(N, tier):
+    return harness.run_job(f"Taus.__call__ with the real tau_energy (N={N})", chain_run(N), timeout_ms=60000 if tier == "quick" else 300000, second=(tier == "thorough"))
+
+
 def job_kin(N, tier):
     return harness.run_job(f"Taus.__call__(N={N})", kin_run(N), timeout_ms=60000 if tier == "quick" else 600000, second=(tier == "thorough"))
 
@@ -152,9 +235,11 @@ def job_emin(version):
 
 
 def jobs(tier, seed):
-    out = [("k1", "job_kin", {"N": 1, "tier": tier}), ("d1", "job_decay", {"N": 1, "tier": tier}), ("d2", "job_decay", {"N": 2, "tier": tier})]
+    out = [("k1", "job_kin", {"N": 1, "tier": tier}), ("d1", "job_decay", {"N": 1, "tier": tier}), ("d2", "job_decay", {"N": 2, "tier": tier}),
+           ("chain1", "job_chain", {"N": 1, "tier": tier})]
     if tier == "thorough":
         out.append(("k2", "job_kin", {"N": 2, "tier": tier}))
+        out.append(("chain2", "job_chain", {"N": 2, "tier": tier}))
     for v in "123":
         out.append((f"emin{v}", "job_emin", {"version": v}))
     return out
